@@ -451,7 +451,99 @@ class Convert(Driver):
         return cls in ("full-precision", "trailing-zero", "whole-mbtc")
 
 
-DRIVERS = [Split, Forms, Unspents, Convert]
+class FeeHistory(Driver):
+    """Mode S: fee() / total_in() must follow the CURRENT spent-output records of one transaction object."""
+    id = "C13.history"
+    rule = ("state = one Tx whose spent-output records are replaced by a history of <= 3 operations from {observe fee()/total_in(), "
+            "set_unspents(claimed amounts), set_unspents(true amounts), assign .unspents directly (claimed / true), "
+            "unspents_from_db(source transactions), append an output}; after every operation fee() = total_in() - total_out() "
+            "with total_in() the sum of the current records, and validate_unspents never returns normally while a claimed "
+            "amount differs from its source; non-trivial = the records changed after a fee was observed")
+
+    OPS = ["observe", "set:claimed", "set:true", "assign:claimed", "assign:true", "from_db", "add-output"]
+
+    def __init__(self, tier, seed):
+        Driver.__init__(self, tier, seed)
+        self.depth = 3 if tier == "quick" else 4
+        self.bound = dict(ops=self.OPS, depth=self.depth)
+
+    def units(self):
+        for first in range(len(self.OPS)):
+            yield dict(first=first)
+
+    def execute(self, unit):
+        for ln in range(0, self.depth):
+            for rest in itertools.product(range(len(self.OPS)), repeat=ln):
+                case = dict(ops=[self.OPS[i] for i in (unit["first"],) + rest])
+                yield case, self.run(case)
+
+    def run(self, case):
+        try:
+            from pycoin.symbols.btc import network
+            Tx = network.tx
+            src = Tx(1, [Tx.TxIn(hashlib.sha256(b"c13.hist").digest(), 0)], [Tx.TxOut(50000, b"\x51"), Tx.TxOut(70000, b"\x52")])
+            db = {src.hash(): src}
+            true = [(50000, b"\x51"), (70000, b"\x52")]
+            claimed = [(60000, b"\x51"), (70000, b"\x52")]
+            mk = lambda recs: [Tx.Spendable(v, sc, src.hash(), i) for i, (v, sc) in enumerate(recs)]
+            tx = Tx(1, [Tx.TxIn(src.hash(), 0), Tx.TxIn(src.hash(), 1)], [Tx.TxOut(100000, b"\x53")])
+            tx.set_unspents(mk(true))
+        except Exception as e:
+            return BAD("construction", "transaction constructible", "EXC %s: %s" % (type(e).__name__, e), clause="construct")
+        cur = list(true)
+        outs = 100000
+        observed = False
+        changed_after_observe = False
+        n = 0
+        for step, op in enumerate(list(case["ops"]) + ["observe"]):
+            try:
+                if op == "set:claimed":
+                    tx.set_unspents(mk(claimed)); new = claimed
+                elif op == "set:true":
+                    tx.set_unspents(mk(true)); new = true
+                elif op == "assign:claimed":
+                    tx.unspents = mk(claimed); new = claimed
+                elif op == "assign:true":
+                    tx.unspents = mk(true); new = true
+                elif op == "from_db":
+                    tx.unspents_from_db(db); new = true
+                elif op == "add-output":
+                    tx.txs_out.append(Tx.TxOut(7, b"\x54")); outs += 7; new = cur
+                else:
+                    new = cur
+                if op != "observe" and observed and (list(new) != cur or op == "add-output"):
+                    changed_after_observe = True
+                cur = list(new)
+                want_in = sum(v for v, _ in cur)
+                got = (tx.total_in(), tx.total_out(), tx.fee())
+                n += 3
+                observed = True
+            except Exception as e:
+                return BAD("history-raises", "operation %r works" % op, "step %d: EXC %s: %s" % (step, type(e).__name__, e), clause="fee-history-raises", n=n)
+            if got != (want_in, outs, want_in - outs):
+                return BAD("fee-differs", "after %r: total_in %d, total_out %d, fee %d" % (op, want_in, outs, want_in - outs),
+                           "total_in %r, total_out %r, fee %r" % got, clause="fee-history", n=n, step=step)
+            # validate_unspents against the sources: normal return only when the records are the true ones
+            try:
+                r = tx.validate_unspents(db)
+                returned = True
+            except Exception:
+                returned = False
+            n += 1
+            if returned and cur != true:
+                return BAD("discrepancy-accepted", "validate_unspents does not return normally (claimed 60000, source says 50000)", "returned %r" % (r,),
+                           clause="fee-history-validate", n=n, step=step)
+            if returned and r != want_in - outs:
+                return BAD("fee-differs", "validate_unspents returns the fee %d" % (want_in - outs), repr(r), clause="fee-history", n=n, step=step)
+            if not returned and cur == true:
+                return BAD("validate-raises", "validate_unspents returns normally for true records", "raised", clause="fee-history-validate", n=n, step=step)
+        return OK("changed-after-observe" if changed_after_observe else "plain", n=n)
+
+    def nontrivial(self, cls):
+        return cls != "plain"
+
+
+DRIVERS = [Split, Forms, Unspents, Convert, FeeHistory]
 ASSUMPTIONS = [
     "spendable values and fixed amounts come from the stated alphabets; at most 3 inputs, 4 unspecified and 2 fixed outputs",
     "fee is an integer >= 0 (the deprecated fee='standard' estimate is not part of the property)",
